@@ -10,6 +10,7 @@ import Mingus.Model.Float
 import Mingus.Model.Machines
 import Mingus.Model.Alias
 import Mingus.Model.Midi
+import Mingus.Model.MidiIn
 /- Line-protocol dispatch: function name + decoded arguments → observation. -/
 namespace Mingus
 open Val
@@ -304,7 +305,32 @@ def dispatchMidi : String → List Val → Option Val
       else Option.none
   | _, _ => none
 
+def bytesOf : Val → Option (List Nat)
+  | .list l => l.mapM fun v => match v with | .int i => if i < 0 then Option.none else some i.toNat | _ => Option.none
+  | _ => Option.none
+
+def readVal (r : Except Err (List MidiIn.RTrack × Int)) : Val :=
+  match r with
+  | .error e => .err e
+  | .ok (ts, bpm) => .list [.int bpm, .list (ts.map fun t => .list [.str t.name, toVal (t.instr.map fun (i : Nat) => (i : Int)),
+      .list (t.bars.map fun b => .list [.str b.key, .int b.meter.1, .int b.meter.2.num,
+        .list (b.entries.map fun e => .list [ratVal e.value, match e.content with
+          | some nc => .list (nc.map fun n => .list [.str n.name, .int n.octave, .int n.channel, .int n.velocity])
+          | Option.none => .nil])])])]
+
+def dispatchMidiIn : String → List Val → Option Val
+  | "midi.read", [bs] => (bytesOf bs).map fun b => readVal (MidiIn.readBytes b)
+  | "midi.roundtrip", [payload, int bpm] =>
+      (match payload with | .list l => l.mapM MidiDec.track | _ => Option.none).map fun ts =>
+        readVal (do let b ← Midi.writeComposition ts bpm 0; MidiIn.readBytes b)
+  | "midi.readvlq", [bs] => (bytesOf bs).map fun b => match MidiIn.varbyte (b.length + 1) 0 0 b with
+      | .ok (v, n, _) => toVal [v, n] | .error e => .err e
+  | "midi.vlqrt", [int n] => if n < 0 then Option.none else
+      some (match MidiIn.varbyte 100 0 0 (Midi.toVarbyte n.toNat ++ [85]) with | .ok (v, k, _) => toVal [v, k] | .error e => .err e)
+  | _, _ => none
+
 def dispatch (fn : String) (args : List Val) : Option Val :=
+  (dispatchMidiIn fn args).orElse fun _ =>
   (dispatchMidi fn args).orElse fun _ =>
   (dispatchAlias fn args).orElse fun _ =>
   (dispatchMachines fn args).orElse fun _ =>
